@@ -82,6 +82,23 @@ def edit_middleware(ns, iface):
     return m
 
 
+def append_middleware(ns, iface):
+    """appends a token to a header that the inner application may already have set, using a mixed-case name"""
+    if iface == "wsgi":
+        @ns.middleware
+        def m(request, next_call):
+            response = next_call(request)
+            response.headers.append("Vary", "X-Added")
+            return response
+    else:
+        @ns.middleware
+        async def m(request, next_call):
+            response = await next_call(request)
+            response.headers.append("Vary", "X-Added")
+            return response
+    return m
+
+
 def identity_decorator(ns, iface):
     if iface == "wsgi":
         @ns.decorator
@@ -148,7 +165,11 @@ def compare(ctx, iface, recipe, wrapper, depth, req_desc, bare, wrapped, count, 
             "truncated" if b.startswith(w) else "other")
         ctx.violation(f"body-differs|{how}|{iface}|{wrapper}", case, f"bare {len(b)} B {b[:40]!r}; wrapped {len(w)} B {w[:40]!r}")
     bh, wh = bare["headers"], wrapped["headers"]
-    if edited:
+    if edited == "append":
+        ctx.mon("edit-one-header")
+        old = [v for k, v in bh if k == "vary"]
+        bh = sorted([(k, v) for k, v in bh if k != "vary"] + [("vary", ", ".join(old + ["X-Added"]))])
+    elif edited:
         ctx.mon("edit-one-header")
         bh = sorted([(k, v) for k, v in bh if k != "x-edited"] + [("x-edited", "yes")])
     if wh != bh:
@@ -179,10 +200,10 @@ def run_case(ctx, recipe, req_desc, rng):
             return counting(iface, recipes.app_from(ns, recipe), counter)
         with drivers.fresh_sse_pool():
             bare = obs(iface, inner({"n": 0}), req)
-            for wrapper in ("middleware", "edit", "decorator"):
+            for wrapper in ("middleware", "edit", "append", "decorator"):
                 if wrapper == "decorator" and recipe.get("app") != "view":
                     continue
-                depth = rng.randrange(1, 4) if wrapper != "edit" else 1
+                depth = rng.randrange(1, 4) if wrapper not in ("edit", "append") else 1
                 counter = {"n": 0}
                 if wrapper == "decorator":
                     vmarks = {}
@@ -193,13 +214,13 @@ def run_case(ctx, recipe, req_desc, rng):
                     app = ns.request_response(view)
                 else:
                     app = inner(counter)
-                    m = identity_middleware(ns, iface) if wrapper == "middleware" else edit_middleware(ns, iface)
+                    m = {"middleware": identity_middleware, "edit": edit_middleware, "append": append_middleware}[wrapper](ns, iface)
                     for _ in range(depth):
                         app = m(app)
                 wrapped = obs(iface, app, req)
                 if wrapper == "decorator":
                     counter = {"n": vmarks.get("invoked", 0)}
-                compare(ctx, iface, recipe, wrapper, depth, req_desc, bare, wrapped, counter, edited=wrapper == "edit")
+                compare(ctx, iface, recipe, wrapper, depth, req_desc, bare, wrapped, counter, edited={"edit": True, "append": "append"}.get(wrapper, False))
         hs = bare["headers"] or []
         names = [k for k, _ in hs]
         if len(names) != len(set(names)) or bare["exc"] is not None or bare["body"] == b"" or len([e for e in bare["events"] if (e[0] == "item" if iface == "wsgi" else e.get("type") == "http.response.body")]) >= 2:
